@@ -782,6 +782,9 @@ func main() {
 			flags += ",valid"
 			valids++
 		}
+		if a.Tier == "thorough" {
+			flags += ",thorough"
+		}
 		classes[class]++
 		b := geo.Boundary()
 		bc := concreteBoundary(geo)
